@@ -174,14 +174,14 @@ fn float_conv_inner(call: &str, c: &Cfg, px: &[[f32; 3]], w: usize, h: usize) ->
     let e = |x: yuvxyb::ConversionError| crate::frames::err_name_conv(x).to_string();
     let v = px.to_vec();
     match call {
-        "RgbToLin" => LinearRgb::try_from(Rgb::new(v, w, h, tc(c.tc), cp(c.cp)).map_err(|_| "ctor")?).map(|r| (r.data().to_vec(), r.width(), r.height())).map_err(e),
-        "RgbToXyb" => Xyb::try_from(Rgb::new(v, w, h, tc(c.tc), cp(c.cp)).map_err(|_| "ctor")?).map(|r| (r.data().to_vec(), r.width(), r.height())).map_err(e),
-        "LinToRgb" => Rgb::try_from((LinearRgb::new(v, w, h).map_err(|_| "ctor")?, tc(c.tc), cp(c.cp))).map(|r| (r.data().to_vec(), r.width(), r.height())).map_err(e),
-        "XybToRgb" => Rgb::try_from((Xyb::new(v, w, h).map_err(|_| "ctor")?, tc(c.tc), cp(c.cp))).map(|r| (r.data().to_vec(), r.width(), r.height())).map_err(e),
-        "LinToXyb" => Ok(Xyb::from(LinearRgb::new(v, w, h).map_err(|_| "ctor")?)).map(|r| (r.data().to_vec(), r.width(), r.height())),
-        "XybToLin" => Ok(LinearRgb::from(Xyb::new(v, w, h).map_err(|_| "ctor")?)).map(|r| (r.data().to_vec(), r.width(), r.height())),
-        "LinToHsl" => Ok(Hsl::from(LinearRgb::new(v, w, h).map_err(|_| "ctor")?)).map(|r| (r.data().to_vec(), r.width(), r.height())),
-        "HslToLin" => Ok(LinearRgb::from(Hsl::new(v, w, h).map_err(|_| "ctor")?)).map(|r| (r.data().to_vec(), r.width(), r.height())),
+        "RgbToLin" => LinearRgb::try_from(crate::srcs::rgb(&v, w, h, tc(c.tc), cp(c.cp))?).map(|r| (r.data().to_vec(), r.width(), r.height())).map_err(e),
+        "RgbToXyb" => Xyb::try_from(crate::srcs::rgb(&v, w, h, tc(c.tc), cp(c.cp))?).map(|r| (r.data().to_vec(), r.width(), r.height())).map_err(e),
+        "LinToRgb" => Rgb::try_from((crate::srcs::lin(&v, w, h)?, tc(c.tc), cp(c.cp))).map(|r| (r.data().to_vec(), r.width(), r.height())).map_err(e),
+        "XybToRgb" => Rgb::try_from((crate::srcs::xyb(&v, w, h)?, tc(c.tc), cp(c.cp))).map(|r| (r.data().to_vec(), r.width(), r.height())).map_err(e),
+        "LinToXyb" => Ok(Xyb::from(crate::srcs::lin(&v, w, h)?)).map(|r| (r.data().to_vec(), r.width(), r.height())),
+        "XybToLin" => Ok(LinearRgb::from(crate::srcs::xyb(&v, w, h)?)).map(|r| (r.data().to_vec(), r.width(), r.height())),
+        "LinToHsl" => Ok(Hsl::from(crate::srcs::lin(&v, w, h)?)).map(|r| (r.data().to_vec(), r.width(), r.height())),
+        "HslToLin" => Ok(LinearRgb::from(crate::srcs::hsl(&v, w, h)?)).map(|r| (r.data().to_vec(), r.width(), r.height())),
         _ => Err("bad-call".to_string()),
     }
 }
@@ -193,9 +193,9 @@ fn to_yuv_conv_inner<T: Pixel>(call: &str, c: &Cfg, px: &[[f32; 3]], w: usize, h
     let e = |x: yuvxyb::ConversionError| crate::frames::err_name_conv(x).to_string();
     let v = px.to_vec();
     match call {
-        "RgbToYuv" => Yuv::<T>::try_from((&Rgb::new(v, w, h, tc(c.tc), cp(c.cp)).map_err(|_| "ctor")?, c.yuv_config())).map_err(e),
-        "LinToYuv" => Yuv::<T>::try_from((LinearRgb::new(v, w, h).map_err(|_| "ctor")?, c.yuv_config())).map_err(e),
-        _ => Yuv::<T>::try_from((Xyb::new(v, w, h).map_err(|_| "ctor")?, c.yuv_config())).map_err(e),
+        "RgbToYuv" => Yuv::<T>::try_from((&crate::srcs::rgb(&v, w, h, tc(c.tc), cp(c.cp))?, c.yuv_config())).map_err(e),
+        "LinToYuv" => Yuv::<T>::try_from((crate::srcs::lin(&v, w, h)?, c.yuv_config())).map_err(e),
+        _ => Yuv::<T>::try_from((crate::srcs::xyb(&v, w, h)?, c.yuv_config())).map_err(e),
     }
 }
 
